@@ -395,6 +395,10 @@ impl FeoxStore {
 
     /// Get current timestamp (public for TTL cleaner)
     pub fn get_timestamp_pub(&self) -> u64 {
+        #[cfg(feature = "verif")]
+        if let Some(now) = crate::verif::now() {
+            return now;
+        }
         SystemTime::now()
             .duration_since(UNIX_EPOCH)
             .unwrap()
